@@ -103,8 +103,8 @@ Witnesses ==
              ex(Pr(_, _)) == \E x \in TxnDomain : \E f \in F : Pr(f, x)
              vYes(f, x)  == Verdict(f, x, F) = Yes
              vNo(f, x)   == Verdict(f, x, F) = No
-             z1(f, x)    == WildFacesNothing(f.pat, x.url)
-             z2(f, x)    == MatchesStrict(f.pat, x.url) /\ Shadowed(f.pat, x.url, Ps)
+             z1(f, x)    == MatchesX(f.pat, x.url) /\ ~MatchesStrictX(f.pat, x.url)
+             z2(f, x)    == MatchesStrictX(f.pat, x.url) /\ Shadowed(f.pat, x.url, Ps)
              z3(f, x)    == UrlV(f.pat, x.url, Ps) = Yes /\ (QueryV(f, x) = Either \/ StatusV(f, x) = Either
                                                              \/ (x.side = "resp" /\ HeaderV(f, x) = Either))
              z4(f, x)    == x.side = "req" /\ HeaderV(f, x) = Either
@@ -133,7 +133,7 @@ Witnesses ==
 FastAgrees(Ps, Us) ==
     \A p \in Ps : \A u \in Us :
         LET mi == MatchInfo(Parts(p), Parts(u)) IN
-        /\ mi.loose = Matches(p, u) /\ mi.strict = MatchesStrict(p, u)
+        /\ mi.loose = MatchesX(p, u) /\ mi.strict = MatchesStrictX(p, u)
         /\ \A i \in 1..NParts(p) : IsParamF(Parts(p)[i].v) = IsParam(Parts(p)[i].v)
                                    /\ IsLitF(Parts(p)[i].v) = IsLit(Parts(p)[i].v)
 ASSUME FastAgrees(PatternsA \cup PatternsB \cup PatternsC \cup PatternsD, UrlsA \cup UrlsB \cup UrlsC \cup UrlsD)
